@@ -218,7 +218,7 @@ def cells(prop, tier):
     for own in ((True,) if uw else (True, False)):
         for cancel in ((True, False) if uw else (True,)):
             # quick: fixed function duration and priority order, every single pre-emption, arrival delay partitioned around the timeout
-            for sfx, pre in product_pre([parts('d1', [(0, 8), (9, 11), (12, 14)])]):
+            for sfx, pre in product_pre([parts('d1', [(0, 8), (9, 9), (10, 10), (11, 11), (12, 14)])]):
                 out.append(Cell(name='%s_foreign_own%d_cancel%d_p%s' % (lp, own, cancel, sfx), sig='d1: int, d2: int, p1: int',
                                 pre=[pre, '0 <= d2 <= 1 and 0 <= p1 <= 110'],
                                 body='H.scen(%r, d1, d2, 2, False, %r, %r, %r, 0, p1)' % (prop, uw, cancel, own),
